@@ -180,6 +180,8 @@ def effects(fn: Fn) -> List[Effect]:
     for n in walk_no_nested(fn.node):
         if isinstance(n, ast.Assign) and len(n.targets) == 1 and isinstance(n.targets[0], ast.Name):
             defs.setdefault(n.targets[0].id, n.value)
+        elif isinstance(n, ast.AnnAssign) and isinstance(n.target, ast.Name) and n.value is not None:
+            defs.setdefault(n.target.id, n.value)          # `line: List[Note] = []` binds like `line = []`
         elif isinstance(n, ast.Assign) and len(n.targets) > 1:
             for t in n.targets:          # a = self.b = <value>: every name denotes the same (new or old) object
                 if isinstance(t, ast.Name):
